@@ -517,7 +517,7 @@ def run(chk):
         if recs.get(0, {}).get("died") or vg or recs.get(0, {}).get("stale"):
             chk.violation(dict(r, observed={"record": recs.get(0), "valgrind": vg[-1500:]}))
         return chk.finish()
-    n_seq = 120 if chk.tier == "quick" else 2000
+    n_seq = 120 if chk.tier == "quick" else 8000
     seqs = []
     for i in range(n_seq):
         s = Seq(rng, with_null=(i % 4 != 0)).build(20 + rng.below(181))
@@ -546,7 +546,7 @@ def run(chk):
                 ops = s["ops"] if at is None else s["ops"][:at + 1]
                 chk.violation({"ops": ops, "free_contexts_first": s["ctx_first"], "failing_call": at, "what": bad})
     # a sample under valgrind memcheck
-    n_vg = 4 if chk.tier == "quick" else 80
+    n_vg = 4 if chk.tier == "quick" else 160
     sample = [seqs[i] for i in range(0, len(seqs), max(1, len(seqs) // n_vg))][:n_vg]
     sample = [dict(s, ops=s["ops"][:60]) for s in sample]
     rc_have, _ = common.sh("command -v valgrind", timeout=10)
